@@ -71,6 +71,20 @@ def intPoints (hex : List String) : Option (Nat → Pt Int) := do
   let arr := (pairUp (scaleInts ds)).toArray
   pure (fun i => arr.getD i (0, 0))
 
+/-- the `n + 3` points of a run (inputs and the model's super-triangle, computed at `Rat`) on a common integer scale:
+    every coordinate is a dyadic rational, so multiplying by the largest denominator makes them integers; the
+    predicates are homogeneous (`orient_smul`, `inCircleDet_smul`), so every sign and hence the whole run is unchanged -/
+def fanPoints (hex : List String) : Option (Option ((Nat → Pt Int) × Nat)) := do
+  let ds ← hex.mapM dyOfHex
+  match pairUp (ds.map dyToRat) with
+  | p :: q :: r :: rest =>
+    let pts := p :: q :: r :: rest
+    let all := pts ++ superTriangle p (q :: r :: rest)
+    let d : Nat := all.foldl (fun a v => Nat.max a (Nat.max v.1.den v.2.den)) 1
+    let arr := (all.map (fun v => ((v.1 * (d : Rat)).num, (v.2 * (d : Rat)).num))).toArray
+    pure (some (fun i => arr.getD i (0, 0), pts.length))
+  | _ => pure none
+
 def handle (op : String) (args0 : List String) : Option String := do
   let args := args0.drop 1       -- first token: generator class (only for known-finding matching)
   match op with
@@ -91,6 +105,16 @@ def handle (op : String) (args0 : List String) : Option String := do
         let out := (superTriangle p ps).flatMap (fun v => [v.1 * 2, v.2 * 2])
         if out.all (fun q => q.den == 1) then pure (" ".intercalate (out.map (fun q => toString q.num)))
         else pure "non-integer"
+  | "c20.holds.fan_positive" => do -- n pts : the hypothesis FanPositive on the model's own run (exact arithmetic)
+      let (_, hex, _) ← takePoints args
+      match ← fanPoints hex with
+      | none => pure "true"
+      | some (P, n) => pure (boolStr (fanPositiveOk P n))
+  | "c20.holds.fan_empty" => do    -- n pts : the hypothesis FanEmpty on the model's own run
+      let (_, hex, _) ← takePoints args
+      match ← fanPoints hex with
+      | none => pure "true"
+      | some (P, n) => pure (boolStr (fanEmptyOk P n))
   | "c20.holds.vertices" => do     -- n pts k out(3k)
       let (_, hex, rest) ← takePoints args
       let k ← nat? (← rest.head?)
